@@ -34,8 +34,11 @@
 #ifdef HAVE_ASAN
 #include <sanitizer/allocator_interface.h>
 static size_t live_bytes(void){ return __sanitizer_get_current_allocated_bytes(); }
+#include <sanitizer/lsan_interface.h>
+static void leak_report(void){ if(getenv("VERIF_LSAN")) __lsan_do_recoverable_leak_check(); }
 #else
 static size_t live_bytes(void){ return 0; }
+static void leak_report(void){}
 #endif
 
 #define MAXLINK 64
@@ -116,7 +119,7 @@ static void ev_state(int h){
   ev_i("rs",vf->ready_state); ev_i("sk",vf->seekable); ev_i("nl",vf->links); ev_i("cur",vf->current_link);
   ev_i("tell",vf->pcm_offset); ev_i("off",vf->offset);
   ev_i("tella", vf->seekable? (long long)vf->pcm_offset : x->delivered);
-  ev_i("hs", vf->vi? vorbis_synthesis_halfrate_p(vf->vi) : -1);
+  ev_i("hs", (vf->vi && vf->vi->codec_setup)? vorbis_synthesis_halfrate_p(vf->vi) : -1);
   ev_i("cl",x->src.closes); ev_b("z",is_zero(vf,sizeof *vf));
   ev_i("nrd",x->src.nread-cb0[h][0]); ev_i("nsk",x->src.nseek-cb0[h][1]); ev_i("ntl",x->src.ntell-cb0[h][2]);
   ev_i("ff",x->src.f_fired);
@@ -188,10 +191,11 @@ static void do_open(int h,file_t *F,const char *mode,long init){
 
 static long do_readf(int h,long len){
   hnd_t *x=&H[h]; OggVorbis_File *vf=&x->vf; float **pcm=NULL; int bs=-7;
-  long t0=vf->pcm_offset; int hs=vf->vi?vorbis_synthesis_halfrate_p(vf->vi):0;
+  long t0=vf->pcm_offset; int hs=0;
   call_begin(h);
   long n=ov_read_float(vf,&pcm,(int)len,&bs);
   ev_begin("ReadF"); ev_i("len",len); ev_i("ret",n); ev_i("bs",bs); ev_i("t0",t0);
+  if(n>0 && vf->vi && vf->vi->codec_setup) hs=vorbis_synthesis_halfrate_p(vf->vi);
   if(n>0 && x->F && pcm){
     /* position at which the returned chunk actually lives: t1-n<<hs (vorbisfile updates pcm_offset while fetching) */
     long ta=vf->pcm_offset-((long)n<<hs);
@@ -224,7 +228,7 @@ static void do_readi(int h,long len,int word,int sgned,int be){
   if(len>(long)sizeof(buf)-64) len=sizeof(buf)-64;
   long gl = len>0?len:0;
   memset(buf,0xA5,gl+64);
-  long t0=vf->pcm_offset; int hs=vf->vi?vorbis_synthesis_halfrate_p(vf->vi):0;
+  long t0=vf->pcm_offset; int hs=0;
   call_begin(h);
   long n=ov_read(vf,(char*)buf,(int)len,be,word,sgned,&bs);
   memset(guard,0xA5,64);
@@ -232,6 +236,7 @@ static void do_readi(int h,long len,int word,int sgned,int be){
   ev_b("guard", memcmp(buf+(n>0?n:0),guard,64)==0 && (n>0 || is_zero(guard,0) ));
   /* untouched on error / eof? */
   { int untouched=1; if(n<=0) for(long i=0;i<gl;i++) if(buf[i]!=0xA5){untouched=0;break;} ev_b("untouched",untouched); }
+  if(n>0 && vf->vi && vf->vi->codec_setup) hs=vorbis_synthesis_halfrate_p(vf->vi);
   if(n>0 && x->F){
     vorbis_info *vi=ov_info(vf,-1); int ch=vi?vi->channels:0; int w=(word==1)?1:2;
     long frames = ch>0? n/(w*ch) : 0;
@@ -387,6 +392,7 @@ static int run_scenario(int from,int to,const char *name,int budget){
     free(ln);
   }
   alarm(0);
+  leak_report();
   ev_begin("End"); ev_s("scn",name); ev_i("live",(long long)live_bytes()-(long long)live0);
   { int lv=0; for(int h=0;h<MAXH;h++) if(H[h].opened) lv++; ev_i("openleft",lv); }
   ev_end();
@@ -406,7 +412,8 @@ int main(int argc,char **argv){
     if(nt==0||tok[0][0]=='#'){ free(ln); i++; continue; }
     if(!strcmp(tok[0],"link")&&nt>=7){
       int id=atoi(tok[1]); int sig=0,managed=0; long mx=-1,nm=-1,mn=-1;
-      for(int k=7;k<nt;k++){ if(!strncmp(tok[k],"sig=",4)) sig=atoi(tok[k]+4); if(!strncmp(tok[k],"managed=",8)){ managed=1; sscanf(tok[k]+8,"%ld,%ld,%ld",&mx,&nm,&mn); } }
+      extern int g_bs0_patch; g_bs0_patch=0;
+      for(int k=7;k<nt;k++){ if(!strncmp(tok[k],"sig=",4)) sig=atoi(tok[k]+4); if(!strncmp(tok[k],"bs0=",4)) g_bs0_patch=atoi(tok[k]+4); if(!strncmp(tok[k],"managed=",8)){ managed=1; sscanf(tok[k]+8,"%ld,%ld,%ld",&mx,&nm,&mn); } }
       if(id>=0&&id<MAXLINK){ if(g_links[id]) link_free(g_links[id]); g_links[id]=link_make(id,atoi(tok[2]),atol(tok[3]),atoi(tok[4]),atol(tok[5]),(unsigned)atol(tok[6]),managed,mx,nm,mn,sig);
         if(!g_links[id]){ ev_begin("LinkFail"); ev_i("id",id); ev_end(); } }
       i++;
